@@ -105,12 +105,24 @@ def repeated_head(ast, heads=()):
     return any(repeated_head(a, tuple(heads) + tuple(hs)) for a in ast[3])
 
 
+def means_any(a, all_names=()):
+    """the pattern is `_` for the parser: `_`, a complement that excludes no symbol of the grammar, or a
+    pattern with such a complement as head and only such arguments"""
+    if a[0] == "any":
+        return True
+    if a[0] == "set":
+        return bool(a[2]) and not (set(a[1]) & set(all_names))
+    if a[0] == "func":
+        return bool(a[2]) and not (set(a[1]) & set(all_names)) and all(means_any(x, all_names) for x in a[3])
+    return False
+
+
 def trivial_func(ast, all_names=()):
-    """every argument pattern is `_`, or a complement `^names` that excludes no symbol of the grammar"""
-    return ast[0] == "func" and all(a[0] == "any" or (a[0] == "set" and a[2] and not (set(a[1]) & set(all_names))) for a in ast[3])
+    """every argument pattern means `_`"""
+    return ast[0] == "func" and all(means_any(a, all_names) for a in ast[3])
 
 
-def regions(item, is_sketch, used_vars, all_names):
+def regions(item, is_sketch, used_vars, all_names, has_consts=False):
     """decidable classifiers of the known-defect regions, on the case only"""
     r = set()
     ast, style = item["ast"], item.get("style", {})
@@ -121,8 +133,12 @@ def regions(item, is_sketch, used_vars, all_names):
         if trivial_func(a, all_names) and (nested or is_sketch):
             sel = set(a[1])
             eff = (set(all_names) - sel) if a[2] else (sel & set(all_names))
-            if eff != set(all_names):
+            # harmless only when the head set is EVERY symbol of the grammar (a Constant is in no named set)
+            if eff != set(all_names) or has_consts:
                 r.add("C05-F2")
+        # with Constants in the grammar, a complement that excludes nothing is read as `_` (which a Constant matches)
+        if has_consts and a[0] in ("set", "func") and a[2] and not (set(a[1]) & set(all_names)):
+            r.add("C05-F2")
         if a[0] == "cnt" and a[2][0] == "all" and style.get("all_paren"):
             r.add("C05-F4")
         if a[0] == "set" and a[2] and style.get("neg_paren"):
@@ -842,7 +858,7 @@ def check(case, M):
             odd = True
             tags.append("odd:" + it.get("odd", "?"))
             continue
-        reg |= regions(it, is_sk, used_vars, all_names)
+        reg |= regions(it, is_sk, used_vars, all_names, len(named_syms) != len(symbols))
         if repeated_head(it["ast"]):
             exception_region = True
         for a, _ in ast_nodes(it["ast"]):
